@@ -13,7 +13,7 @@ EXPLANATION = (
     "decode(); L3 the body segments written (string, 16-bit, byte, raw, optional sections, repeated entries) are read back "
     "field by field at the same symbolic offset for every combination of optional sections, each optional section being "
     "announced by a flag bit set under the same guard and read under a test of exactly that bit; L4 every field or-ed into "
-    "a flag byte (fixed header or body) at shift s is extracted with a contiguous mask starting at s, compared only with 0, the whole mask or a truth value, and including no bit at which the encoder writes another field or a constant; L5 every 2-byte length prefix is len() of "
+    "a flag byte (fixed header or body) at shift s is extracted with a contiguous mask starting at s, compared only with 0, the whole mask or a truth value, and including no bit at which the encoder writes another field or a constant, and a flag the decoder takes from the first byte is or-ed in on every combination of the encoder's guards (except under the flag's own truth, and DUP at QoS 0); L5 every 2-byte length prefix is len() of "
     "the very bytes appended after it; L6 encode() is deterministic (pure helpers only, reads self fields and constants, "
     "iterates fields in their own order, writes only self.encoded). NOT decided: that the primitive codecs are inverses on "
     "their whole numeric domains (a mutant keeping every constant and shape but breaking the arithmetic is out of reach).")
